@@ -125,3 +125,13 @@ def coq_triples(m):
 
 def nat_list(xs):
     return coqio.lst([str(int(x)) for x in xs], 'nat') if len(xs) else '(@nil nat)'
+
+
+def relayout(arr, layout):
+    """Same values, different memory layout: C-ordered, Fortran-ordered, or a transposed view."""
+    if layout == 'F':
+        return np.asfortranarray(arr)
+    if layout == 'view':
+        axes = tuple(range(arr.ndim))[::-1]
+        return np.ascontiguousarray(arr.transpose(axes)).transpose(axes)
+    return arr
